@@ -44,7 +44,7 @@ def histories(tier, rng):
 
 def judge(T, name, ops, line, s, decoded):
     """Spec judgement of one history run on the implementation (decoded: write bytes -> spec decode line)."""
-    pub = {"script": name, "ops": ops}
+    pub = {"script": name, "ops": ops, "nolock": bool(getattr(s, "nolock", False))}
     res = line.split(";")[0].split("|")
     writes = [e[1] for e in s.log[s.hs_mark:] if e[0] == "w"]
     closes = [w for w in writes if decoded[w].split(":")[3] == "8" and decoded[w][0] == "F"]
@@ -228,8 +228,9 @@ def run(ctx):
     rng = random.Random(ctx.seed)
     runs = []
     for name, ops in histories(ctx.tier, rng):
-        sc = {"fire": 0, "skip": 0, "script": SCRIPTS[name], "keys": KEYS, "ops": ops}
+        sc = {"fire": 0, "skip": 0, "script": SCRIPTS[name], "keys": KEYS, "ops": ops, "nolock": len(runs) % 3 == 1}
         line, s = wsrun.run_impl(sc)
+        s.nolock = sc["nolock"]
         runs.append((name, ops, sc, line, s))
     allw = list(dict.fromkeys(e[1] for r in runs for e in r[4].log[r[4].hs_mark:] if e[0] == "w"))
     decoded = {}
@@ -250,7 +251,7 @@ def run(ctx):
                 break
         T.validated = len(outs)
     return T.result(
-        "every history of 1..3 (4) calls over {send, recv_data_frame, recv, ping, close(1000), close(3001,'bye'), "
+        "(a third of the histories with enable_multithread=False) every history of 1..3 (4) calls over {send, recv_data_frame, recv, ping, close(1000), close(3001,'bye'), "
         "close(70000), close(-1), send_close(1001), shutdown, recv_frame} against 13 server scripts (end of stream, silence, "
         "data, ping, close frame with/without body, two close frames, chatter then close, close inside a fragmented message, "
         "protocol error, half a frame), plus random histories of 4-11 calls; close() against a silent or chattering peer under "
@@ -274,8 +275,9 @@ def replay(ctx, sc):
         T = Tally()
         bounded_close(T, random.Random(0), 1, only=sc)
         return T.failures[0] if T.failures else None
-    s_ = {"fire": 0, "skip": 0, "script": SCRIPTS[sc["script"]], "keys": KEYS, "ops": sc["ops"]}
+    s_ = {"fire": 0, "skip": 0, "script": SCRIPTS[sc["script"]], "keys": KEYS, "ops": sc["ops"], "nolock": sc.get("nolock", False)}
     line, s = wsrun.run_impl(s_)
+    s.nolock = s_["nolock"]
     allw = list(dict.fromkeys(e[1] for e in s.log[s.hs_mark:] if e[0] == "w"))
     decoded = dict(zip(allw, ctx.spec.run(["decode " + hx(w) for w in allw])))
     T = Tally()
